@@ -603,6 +603,12 @@ func execDSMatch(f []string) vlib.Res {
 	return vlib.Res{Impl: vlib.B(got), Oracle: or, Tags: joinTags("nt", tag, tt)}
 }
 
+// sameKey: the same DNSKEY up to the case of its owner name.
+func sameKey(a, b *dns.DNSKEY) bool {
+	return asciiEqualFold(dns.Fqdn(a.Hdr.Name), dns.Fqdn(b.Hdr.Name)) && a.Hdr.Class == b.Hdr.Class && a.Flags == b.Flags &&
+		a.Protocol == b.Protocol && a.Algorithm == b.Algorithm && a.PublicKey == b.PublicKey
+}
+
 // keyRefDigests is the RFC 4034 §5.1.4 digest of a key under types 1, 2, 4
 // ("-" where the key does not decode): the model's digest oracle column.
 func keyRefDigests(k *dns.DNSKEY) string {
@@ -721,7 +727,7 @@ func execVerifyDS(f []string) vlib.Res {
 			found := false
 			for _, ks := range anchored {
 				for _, a := range ks {
-					found = found || a == k
+					found = found || sameKey(a, k) // one representative per key (owner case aside) is returned
 				}
 			}
 			if !found {
@@ -733,17 +739,32 @@ func execVerifyDS(f []string) vlib.Res {
 	if slow {
 		or = "FAIL sig=dsv/super-linear"
 	}
-	// which of the offered keys VerifyDSAnchoredWithWork anchored, by position
+	// which of the offered keys VerifyDSAnchoredWithWork anchored: position of the first offered key
+	// that is the same key (duplicates differing only in owner case are collapsed by the validator)
 	anch := "-"
 	if err3 == nil {
+		seen := map[int]bool{}
 		var idx []string
 		for i, k := range keys {
+			hit := false
 			for _, ks := range anchored {
 				for _, a := range ks {
-					if a == k {
-						idx = append(idx, fmt.Sprint(i))
-					}
+					hit = hit || a == k
 				}
+			}
+			if !hit {
+				continue
+			}
+			first := i
+			for j := 0; j < i; j++ {
+				if sameKey(keys[j], k) {
+					first = j
+					break
+				}
+			}
+			if !seen[first] {
+				seen[first] = true
+				idx = append(idx, fmt.Sprint(first))
 			}
 		}
 		anch = strings.Join(idx, ".")
@@ -1042,6 +1063,24 @@ func execVerifySig(f []string) vlib.Res {
 	return vlib.Res{Impl: "own=" + errEnum(own) + " cv=" + cvs, Oracle: or, Tags: joinTags("nt", tag, tt, fmt.Sprintf("alg%d", sig.Algorithm), "own:"+errEnum(own), rrTag)}
 }
 
+// collectedIdx: the records a validator has to see signed (RFC 4035 §5.3): answer records, and
+// authority records other than NS that lie inside the zone; an answer record outside the zone is fatal.
+func collectedIdx(ws []wireRR, nAns int, zw []byte) (keep []int, fatal bool) {
+	for i, w := range ws {
+		inZone := labelSuffix(w.owner, zw)
+		auth := i >= nAns
+		switch {
+		case auth && w.typ == dns.TypeNS:
+		case !inZone && auth:
+		case !inZone:
+			fatal = true
+		default:
+			keep = append(keep, i)
+		}
+	}
+	return
+}
+
 type rrGroup struct {
 	name  string
 	typ   uint16
@@ -1092,9 +1131,14 @@ func pick[T any](xs []T, idx []int) []T {
 
 // msgCols: per signature the signer wire, the validity verdict at `now`, and per key the (h, x) columns
 // relative to the RRset the signature is filed under.
-func msgCols(keys []*dns.DNSKEY, sigs []*dns.RRSIG, ws []wireRR, now int64) (sw, per, hx string) {
+func msgCols(zone string, nAns int, keys []*dns.DNSKEY, sigs []*dns.RRSIG, all []wireRR, now int64) (sw, per, hx string) {
 	if len(sigs) == 0 {
 		return "-", "-", "-"
+	}
+	ws := all
+	if zw, ok := packName(zone); ok {
+		keep, _ := collectedIdx(all, nAns, zw)
+		ws = pick(all, keep)
 	}
 	gs := groupRRs(ws)
 	var sws, pers, hxs []string
@@ -1145,7 +1189,7 @@ func execVerifyMsg(f []string) vlib.Res {
 		return vlib.Res{Impl: "bad-op"}
 	}
 	now := time.Now().Unix()
-	sw, per, hx := msgCols(keys, sigs, ws, now)
+	sw, per, hx := msgCols(zone, nAns, keys, sigs, ws, now)
 	if f[7] != "o="+ownersCol(ws) || f[8] != "c="+canonCol(ws) || f[9] != "sw="+sw || f[10] != "p="+per || f[11] != "hx="+hx {
 		return vlib.Res{Impl: "bad-op"}
 	}
@@ -1173,18 +1217,9 @@ func execVerifyMsg(f []string) vlib.Res {
 	want, wantStrict := zok && len(keys) > 0, false
 	var need [][]int
 	if want {
-		var keep []int
-		for i, w := range ws {
-			inZone := labelSuffix(w.owner, zw)
-			auth := i >= nAns
-			switch {
-			case auth && w.typ == dns.TypeNS:
-			case !inZone && auth:
-			case !inZone:
-				want = false
-			default:
-				keep = append(keep, i)
-			}
+		keep, fatal := collectedIdx(ws, nAns, zw)
+		if fatal {
+			want = false
 		}
 		for _, g := range groupRRs(pick(ws, keep)) {
 			idx := make([]int, len(g.idx))
